@@ -184,7 +184,7 @@ func c06Cfg(c *Ctx) *RuleResult {
 		for _, cs := range CallsTo([]*FuncUnit{u}, complete) {
 			if mentionsSelector(cs.Node, "Internal") {
 				for _, g := range flattenGuards(GuardsOf(info, u.Decl.Body, cs.Node)) {
-					if be, ok := ast.Unparen(g.Cond).(*ast.BinaryExpr); ok && !g.Pos && be.Op == token.LSS && fieldOf(info, be.X) == rc {
+					if be, ok := ast.Unparen(g.Cond).(*ast.BinaryExpr); ok && g.Pos && be.Op == token.GEQ && fieldOf(info, be.X) == rc {
 						internal = true
 					}
 				}
@@ -279,8 +279,8 @@ func c06Rearm(c *Ctx) *RuleResult {
 			return found
 		}
 		type origin struct {
-			n    ast.Node
-			what string
+			n                ast.Node
+			what             string
 			tolerateExisting bool
 		}
 		var origins []origin
@@ -533,8 +533,8 @@ func c06Reaper(c *Ctx) *RuleResult {
 
 func init() {
 	register(&PropertySpec{
-		ID:    "C06",
-		Level: "other",
+		ID:          "C06",
+		Level:       "other",
 		Explanation: "Structural necessary conditions of 'failures time out, wake everyone and leak nothing': each reaper is armed with its own configured timeout and documented status code; the retry counter only restarts on (re)assignment and re-issue is bounded; Synchronize re-arms the worker cleanup on every exit after touching cleanup state; every blocking select has a context/timer arm and runs unlocked; every container of client/worker state is emptied by code reachable from a cleanup callback; callbacks only run from enter(). That timers fire and quiescence over all crash points are not decided.",
 		Assumptions: []string{"the clock delivers timer events", "cleanup callbacks are only registered through cleanupQueue.add"},
 		Rules:       []RuleFunc{c06Cfg, c06Retry, c06Rearm, c06Select, c06Reaper, schedWaiters, schedWorkerRemoval, schedDrainLoops, schedStageWake, schedRemoveIfEmptyWalk},
